@@ -51,7 +51,11 @@ def parse_header(path):
         doms = re.findall(r"\(\(([-0-9,]+)\) \(([-0-9,]+)\) \(([-0-9,]+)\)\)", nxt())
         H["domains"] = [[_ints(a), _ints(b)] for a, b, _ in doms]
         H["steps"] = [int(v) for v in nxt().split()]
-        H["dx"] = [[float(v) for v in nxt().split()] for _ in range(H["finest"] + 1)]
+        dxl = [nxt() for _ in range(H["finest"] + 1)]
+        H["dx"] = [[float(v) for v in l.split()] for l in dxl]
+        # most significant digits any cell size is stated with: a header written with few digits states numbers that agree
+        # with each other only to that precision
+        H["dx_digits"] = max([len(re.sub(r"[eE].*$", "", v).replace(".", "").replace("-", "").lstrip("0")) for l in dxl for v in l.split()] or [17])
         H["coord"] = nxt()
         H["zero"] = nxt()
         H["levels"] = []
@@ -274,11 +278,14 @@ def wellformed(A):
             if lv < len(H["dx"]) and b < len(HL["bounds"]):
                 for d in range(nd):
                     dx = H["dx"][lv][d]
-                    elo = H["geo_lo"][d] + dx * idx[0][d]
-                    ehi = H["geo_lo"][d] + dx * (idx[1][d] + 1)
+                    i0 = H["domains"][lv][0][d] if lv < len(H["domains"]) else 0     # first index of the level's domain
+                    elo = H["geo_lo"][d] + dx * (idx[0][d] - i0)
+                    ehi = H["geo_lo"][d] + dx * (idx[1][d] + 1 - i0)
                     blo, bhi = HL["bounds"][b][d]
-                    if abs(elo - blo) > 1e-9 * max(1.0, abs(elo)) + 1e-6 * abs(dx) or \
-                       abs(ehi - bhi) > 1e-9 * max(1.0, abs(ehi)) + 1e-6 * abs(dx):
+                    # numbers stated with six or seven digits: consistent to that precision only (still far below a cell)
+                    slack = 0.0 if H.get("dx_digits", 17) > 7 else 2e-5 * max(abs(H["geo_lo"][d]), abs(H["geo_hi"][d]), abs(H["geo_hi"][d] - H["geo_lo"][d]))
+                    if abs(elo - blo) > 1e-9 * max(1.0, abs(elo)) + 1e-6 * abs(dx) + slack or \
+                       abs(ehi - bhi) > 1e-9 * max(1.0, abs(ehi)) + 1e-6 * abs(dx) + slack:
                         why.append("L%d box %d dim %d bounds (%r,%r) vs idx (%r,%r)"
                                    % (lv, b, d, blo, bhi, elo, ehi))
         for fn, segs in C["files"].items():
